@@ -441,6 +441,46 @@ impl<'a> FusedFuture for TimerFuture<'a> {
     }
 }
 
+#[cfg(futures_intrusive_verif)]
+impl<MutexType: RawMutex> GenericTimerService<MutexType> {
+    /// Verification hook: pre-order walk of the timer heap; `extra` packs the
+    /// expiry (low 48 bits) and the number of children (high 16 bits).
+    pub fn verif_snapshot(&self, out: &mut [crate::verif::VerifNode]) -> usize {
+        let guard = self.inner.lock();
+        let mut n = 0;
+        guard.waiters.verif_walk(out.len(), |node, children| {
+            out[n] = crate::verif::VerifNode {
+                addr: node as *const _ as usize,
+                state: match node.state {
+                    PollState::Unregistered => 0,
+                    PollState::Registered => 1,
+                    PollState::Expired => 2,
+                },
+                waker: crate::verif::waker_data(&node.task),
+                extra: (node.expiry & 0xffff_ffff_ffff) | ((children as u64) << 48),
+            };
+            n += 1;
+        });
+        n
+    }
+}
+
+#[cfg(futures_intrusive_verif)]
+impl<'a> LocalTimerFuture<'a> {
+    /// Verification hook: address of the embedded heap node.
+    pub fn verif_node_addr(&self) -> usize {
+        &self.wait_node as *const _ as usize
+    }
+}
+
+#[cfg(futures_intrusive_verif)]
+impl<'a> TimerFuture<'a> {
+    /// Verification hook: address of the embedded heap node.
+    pub fn verif_node_addr(&self) -> usize {
+        self.timer_future.verif_node_addr()
+    }
+}
+
 // Export a non thread-safe version using NoopLock
 
 /// A [`GenericTimerService`] implementation which is not thread-safe.
